@@ -154,6 +154,14 @@ def _render_site(i, s, ev, site_line, base):
     if (op == "getitem" and len({e[1] for e in ev}) > 1 and len(ev) > 1
             and place not in ("module", "var")):
         place = "var"
+    if s.get("mutate_after") and op in ("eq", "le", "ge", "in") and len(ev) == 1 and place in ("assert", "var"):
+        # the observed object is bound to a name, compared, and mutated afterwards: what is recorded must
+        # be the value at comparison time (the harness' expectation is built independently)
+        out.append(ind + f"_v{i} = {_X(ev[0])}")
+        site_line[i] = base + len(out)
+        out.append(ind + pre + stmt(style, cmp_expr(op, f"_v{i}", snap_call(s), rev)))
+        out.append(ind + f"mutate_in_place(_v{i})")
+        return out
     if place == "module":
         for e in ev:
             out.append(ind + stmt(style, ev_expr(e, f"S{i}")))
@@ -332,7 +340,28 @@ def site(draw, tier="quick", ops=("eq", "le", "ge", "in", "getitem"), styles=("a
          "style": draw(st.sampled_from(list(styles))), "rev": False}
     if op in ("eq", "le", "ge") and place != "helper":
         s["rev"] = draw(st.booleans())
+    s["mutate_after"] = draw(st.sampled_from([False, False, True]))
+    if s["mutate_after"] and op in ("eq", "in") and draw(st.booleans()):
+        # shallowly immutable wrappers around a mutable object, observed once and mutated afterwards
+        s["events"] = [draw(aliasing_value(tier))]
+        s["place"] = draw(st.sampled_from(["assert", "var"]))
     return s
+
+
+def aliasing_value(tier):
+    ints = st.integers(0, 9).map(lambda i: ["int", i])
+    lst = st.lists(ints, max_size=3).map(lambda xs: ["list", xs])
+    dct = st.lists(st.tuples(ints, ints).map(list), max_size=2, unique_by=lambda kv: kv[0][1]).map(lambda kv: ["dict", kv])
+    inner = st.one_of(lst, dct, st.lists(ints, max_size=2).map(lambda xs: ["set", xs]))
+    return st.one_of(
+        st.tuples(ints, inner).map(lambda t: ["tuple", [t[0], t[1]]]),
+        inner.map(lambda x: ["tuple", [x]]),
+        st.tuples(inner, ints).map(lambda t: ["call", "NT", [["a", t[0]], ["b", t[1]]]]),
+        inner.map(lambda x: ["call", "TNT", [["p", x]]]),
+        st.tuples(ints, inner).map(lambda t: ["tuple", [["tuple", [t[0], t[1]]], t[0]]]),
+        inner.map(lambda x: ["call", "FPoint", [["x", x]]]),
+        inner,
+    )
 
 
 @st.composite
@@ -443,6 +472,10 @@ def site_with_prev(draw, tier="quick", ops=("eq", "le", "ge", "in", "getitem"), 
          "prev_desc": pd, "prev": None if pd is None else text(pd)}
     if op in ("eq", "le", "ge") and place != "helper":
         s["rev"] = draw(st.booleans())
+    s["mutate_after"] = draw(st.sampled_from([False, False, True]))
+    if s["mutate_after"] and pd is None and op in ("eq", "in") and draw(st.booleans()):
+        s["events"] = [draw(aliasing_value(tier))]
+        s["place"] = draw(st.sampled_from(["assert", "var"]))
     return s
 
 
